@@ -24,11 +24,12 @@ from .. import core, gen, schemas
 from ..core import outcome
 from ..validator import validator
 
-BLOCK = ["p", "h1", "h2", "h3", "blockquote", "pre", "ul", "ol", "li", "hr", "div", "section", "table", "tr", "td"]
+BLOCK = ["p", "h1", "h2", "h3", "h6", "blockquote", "pre", "ul", "ol", "li", "hr", "div", "section", "table", "tr", "td"]
 INLINE = ["em", "i", "strong", "b", "code", "a", "img", "br", "span", "u"]
 IGNORABLE = ["script", "style", "title"]
 STYLES = ["font-weight: bold", "font-style:italic", "font-weight:400;font-style: italic", "color: red", "font-weight", ""]
-WORDS = ["foo", "bar", "a", "x y", " lead", "trail ", "two  spaces", "new\nline", "&amp;", "&lt;b&gt;", "é😀", "tab\there"]
+WORDS = ["foo", "bar", "a", "x y", " lead", "trail ", "two  spaces", "new\nline", "&amp;", "&lt;b&gt;", "é😀", "tab\there",
+         "10\u00a0km", "\u00a0indented", "em\u2003space", "&nbsp;x"]
 
 
 def gen_html(rng, depth=0):
@@ -98,6 +99,10 @@ def context_schema():
     nodes["deep_para"] = {"content": "inline*", "group": "block",
                           "parseDOM": [{"tag": "p", "context": "blockquote//|blockquote/blockquote/", "priority": 70}],
                           "toDOM": lambda _: ["p", {"class": "d"}, 0]}
+    # a context anchored at the root with a `//` wildcard: matches everywhere, so every <h6> becomes a rooted_para
+    nodes["rooted_para"] = {"content": "inline*", "group": "block",
+                            "parseDOM": [{"tag": "h6", "context": "doc//", "priority": 80}],
+                            "toDOM": lambda _: ["h6", {"class": "r"}, 0]}
     return Schema({"nodes": nodes, "marks": {k: dict(v) for k, v in basic_schema.spec["marks"].items()}})
 
 
@@ -178,11 +183,14 @@ def run(ctx):
                         bad.append("quote_para outside a blockquote")
                     if c.type.name == "deep_para" and anc.count("blockquote") < 1:
                         bad.append("deep_para without a blockquote ancestor")
+                    if c.type.name == "heading" and c.attrs.get("level") == 6:
+                        bad.append("an <h6> was parsed by the plain heading rule although the rule with context 'doc//' (which every "
+                                   "position satisfies) has priority")
                     if not c.is_leaf and not c.is_text:
                         walk(c, anc + [c.type.name])
             walk(node, ["doc"])
             if bad:
-                ctx.violation("context-rule", "a context-restricted parse rule applied where the open ancestors do not match: " + bad[0], dict(replay, doc=j))
+                ctx.violation("context-rule", "a context-restricted parse rule was applied where the open ancestors do not match, or not applied where they do: " + bad[0], dict(replay, doc=j))
     # ---- export, escaping, round trip
     for name, schema in parse_schemas[:2]:
         info = schemas.by_name(name)
